@@ -121,6 +121,8 @@ def check(run):
     run.assumptions += ["equivalence with a fresh process for arbitrary add/remove histories is a statement over all histories: these are the structural reasons it can hold "
                         "(update rebuilds everything from the catalogs; the catalogs are exact) - the induction over histories is not mechanised",
                         "v-table pointers / hash entries of classes unregistered since the previous update are stale by design until the next update: not decided"]
+    from .. import crules as _cr
+    _cr.facet_rules(run, "C07-facets")
     return run.finish(level="other", explanation="AST who-may-read rule over the statics referenced by every function of the update path (frozen list of policy-keyed state, one "
                       "reason each), CFG control-dependence whitelists of the installing stores / calls, typestate rule on deferred-id flags, and the C18 catalog rules.",
                       extra_cov={"state_whitelist": [{"pattern": a, "reason": b} for a, b in STATE]})
